@@ -20,6 +20,12 @@ F2s = dict(F2, scale=2.0 ** -60)
 FLs = dict(FL, scale=2.0 ** -1070)
 
 
+# three overlapping plain inc() calls per flavour (equal amounts: judged by the bounds clause of CounterReads)
+FI3 = {"flavor": "f64", "kind": "counter", "counter": False, "threads": ["t1", "t2", "t3"],
+       "scripts": {"t1": [{"k": "inc"}, {"k": "inc"}], "t2": [{"k": "inc"}, {"k": "get"}], "t3": [{"k": "inc"}, {"k": "get"}]}}
+II3 = dict(FI3, flavor="int", kind="intcounter")
+
+
 def run(ctx):
     exe = build_harness()
     stats, samples = new_stats(), []
@@ -32,7 +38,11 @@ def run(ctx):
         run_scenario(ctx, "C01", exe, FR, "FR", stats, samples, *O, model=True, nrandom=0, kinds=["counter"])
         run_scenario(ctx, "C01", exe, F2s, "F2s", stats, samples, *O, model=True, nrandom=50, kinds=["counter", "countervec_child"])
         run_scenario(ctx, "C01", exe, FLs, "FLs", stats, samples, *O, model=True, nrandom=0, kinds=["counter"])
+        run_scenario(ctx, "C01", exe, FI3, "FI3", stats, samples, *O, model=True, nrandom=300, kinds=["counter", "countervec_child"])
+        run_scenario(ctx, "C01", exe, II3, "II3", stats, samples, *O, model=False, nrandom=100, kinds=["intcounter"])
     else:
+        run_scenario(ctx, "C01", exe, FI3, "FI3", stats, samples, *O, model=True, nrandom=5000, kinds=["counter", "countervec_child"])
+        run_scenario(ctx, "C01", exe, II3, "II3", stats, samples, *O, model=True, nrandom=2000, kinds=["intcounter", "intcountervec_child"])
         for sc, lb in ((F2s, "F2s"), (FLs, "FLs"), (dict(F3, scale=2.0 ** -60), "F3s"), (dict(F2, scale=2.0 ** 900), "F2h")):
             run_scenario(ctx, "C01", exe, sc, lb, stats, samples, *O, model=True, nrandom=2000, kinds=["counter", "countervec_child"])
         for sc, lb, kinds in ((F2, "F2", ["counter", "countervec_child"]), (I2, "I2", ["intcounter", "intcountervec_child"]), (FL, "FL", ["counter", "countervec_child"]),
